@@ -167,7 +167,7 @@ def poc_fit_constant_line(force, ret_details=False):
 
     cp = np.nan
     details = {}
-    if force.size > 4:  # 3 fit parameters
+    if force.size > 4 and np.ptp(force) > 0:  # 3 fit parameters
         # normalize force
         fmin = np.min(force)
         fptp = np.max(force) - fmin
@@ -183,7 +183,7 @@ def poc_fit_constant_line(force, ret_details=False):
         params.add('m', value=(1 - y[x0])/(x.size - x0))
 
         out = lmfit.minimize(residual, params, args=(x, y), method="nelder")
-        if out.success:
+        if out.success and 0 <= out.params["x0"].value < force.size:
             cp = int(out.params["x0"])
             if ret_details:
                 details["plot force"] = [x, force]
@@ -250,7 +250,7 @@ def poc_fit_constant_polynomial(force, ret_details=False):
 
     cp = np.nan
     details = {}
-    if force.size > 6:  # 5 fit parameters
+    if force.size > 6 and np.ptp(force) > 0:  # 5 fit parameters
         fmin = np.min(force)
         fptp = np.max(force) - fmin
         y = (force - fmin) / fptp
@@ -274,7 +274,7 @@ def poc_fit_constant_polynomial(force, ret_details=False):
 
         out = lmfit.minimize(residual, params, args=(x, y), method="nelder")
 
-        if out.success:
+        if out.success and 0 <= out.params["x0"].value < force.size:
             cp = int(out.params["x0"])
             if ret_details:
                 details["plot force"] = [x, force]
@@ -350,7 +350,7 @@ def poc_fit_line_polynomial(force, ret_details=False):
 
     cp = np.nan
     details = {}
-    if force.size > 7:  # 6 fit parameters
+    if force.size > 7 and np.ptp(force) > 0:  # 6 fit parameters
         fmin = np.min(force)
         fptp = np.max(force) - fmin
         y = (force - fmin) / fptp
@@ -362,7 +362,7 @@ def poc_fit_line_polynomial(force, ret_details=False):
         params.add('d', value=np.mean(y[:10]))
         params.add('x0', value=x0)
         # slope
-        params.add('m', value=y[x0]/x0)
+        params.add('m', value=y[x0]/max(x0, 1))
         # The polynomial fitting parameters are supposed to be
         # greater than zero (source?). We set the minimum to 1e-3 so
         # the fitting algorithm becomes more stable. Also, the initial
@@ -376,7 +376,7 @@ def poc_fit_line_polynomial(force, ret_details=False):
 
         out = lmfit.minimize(residual, params, args=(x, y), method="nelder")
 
-        if out.success:
+        if out.success and 0 <= out.params["x0"].value < force.size:
             cp = int(out.params["x0"])
             if ret_details:
                 details["plot force"] = [x, force]
